@@ -523,21 +523,45 @@ theorem C03_transmitted_current_refuted : ¬ C03_transmitted_current id 4500 := 
   rw [hown] at this
   exact Bool.false_ne_true this
 
-/-- **the part that holds**: if at every `update` / `unregister` no pending reply holds a record that only the changed
-service owns (`noReplyQueuedForChanged` — the negation of D20's signature; for `unregister` the D5 repair purges such
-records, which is C08's theorem), then every datagram ever sent consists of records of services registered at that
-instant. -/
-theorem C03_transmitted_current_partial (ops : List HostOp) (hq : noReplyQueuedForChanged lower ettl {} ops = true) :
+/-- **the part that holds** (`_partial`): for every history none of whose operations is in the input class of D20, D20b or D20c
+(`noSupersededReplyQueued`, evaluated operation by operation:
+* at `update s` — every pending record *of the service `s` replaces* is still a record of a registered service afterwards (D20 is
+  exactly the negation: a queued record that the update supersedes);
+* at `unregister` — every type-enumeration pointer, and with a shared host every address / NSEC record of the withdrawn service,
+  that is still pending **after the purge** is a record of a service that stays registered (D20b, D20c);
+* attribute writes come as `update`, as in `C03_transmitted_current`)
+every datagram ever sent consists of records of services registered at that instant.  The proof shows that the records
+`async_unregister_service` purges (`purgeMap`: PTR, SRV, TXT, and the address/NSEC set of an unshared host) are gone from every
+pending reply — without the D5 purge the theorem is false.  Missing for full strength: exactly the three recorded findings. -/
+theorem C03_transmitted_current_partial (ops : List HostOp) (hq : noSupersededReplyQueued lower ettl {} ops = true) :
     ∀ o ∈ (RHost.run lower ettl ops).2, Sent.current lower ettl o = true :=
   runFrom_spec lower ettl ops (PendInv.init lower ettl) hq
 
-/-- non-vacuity of the hypothesis: the same exchange with the queue flushed before the update satisfies it and sends two
-datagrams; the witness of the refutation is exactly what it excludes -/
+def qPtrA : List Msg := [{ isProbe := false, questions := [⟨"_a._tcp.local.", 12, 1, false⟩], answers := [] }]
+
+/-- non-vacuity of the hypothesis, and its exactness on the benign histories the earlier, broader hypothesis rejected:
+the exchange with the queue flushed before the update; **a PTR reply pending at the unregister of its service** (the purge empties
+it, nothing is sent); **a no-op update with a reply pending**; an update of the port while only the PTR is pending — all inside;
+the witness of the refutation is outside -/
 example :
-    noReplyQueuedForChanged id 4500 {} [.api (.register exX), .api (.query qTxtSrvX), .transmit,
+    noSupersededReplyQueued id 4500 {} [.api (.register exX), .api (.query qTxtSrvX), .transmit,
         .api (.update { exX with port := 81 }), .api (.query qTxtSrvX), .transmit] = true
     ∧ (RHost.run id 4500 [.api (.register exX), .api (.query qTxtSrvX), .transmit,
         .api (.update { exX with port := 81 }), .api (.query qTxtSrvX), .transmit]).2.length = 2
-    ∧ noReplyQueuedForChanged id 4500 {} d20Ops = false := by decide
+    ∧ noSupersededReplyQueued id 4500 {} [.api (.register exX), .api (.query qPtrA), .api (.unregister ["x._a._tcp.local."]), .transmit] = true
+    ∧ (RHost.run id 4500 [.api (.register exX), .api (.query qPtrA), .api (.unregister ["x._a._tcp.local."]), .transmit]).2.length = 0
+    ∧ noSupersededReplyQueued id 4500 {} [.api (.register exX), .api (.query qTxtSrvX), .api (.update exX), .transmit] = true
+    ∧ (RHost.run id 4500 [.api (.register exX), .api (.query qTxtSrvX), .api (.update exX), .transmit]).2.length = 1
+    ∧ noSupersededReplyQueued id 4500 {} d20Ops = false := by decide
+
+/-- D20b and D20c are outside too: an enumeration answer pending when the last service of its type is withdrawn; an A answer
+pending when one of two services on the host is withdrawn (its NSEC additional and its address record at its own TTL stay) -/
+example :
+    noSupersededReplyQueued id 4500 {} [.api (.register exX),
+        .api (.query [{ isProbe := false, questions := [⟨"_services._dns-sd._udp.local.", 12, 1, false⟩], answers := [] }]),
+        .api (.unregister ["x._a._tcp.local."]), .transmit] = false
+    ∧ noSupersededReplyQueued id 4500 {} [.api (.register exX), .api (.register exY),
+        .api (.query [{ isProbe := false, questions := [⟨"h1.local.", 28, 1, false⟩], answers := [] }]),
+        .api (.unregister ["y._b._tcp.local."]), .transmit] = false := by decide
 
 end Zc
